@@ -301,6 +301,9 @@ func Random(r *cq.RNG, i int, valid bool) lorawan.MACCommandPayload {
 		v.ChannelMaskACK, v.DataRateACK, v.PowerACK = r.Bool(), r.Bool(), r.Bool()
 	case *lorawan.DutyCycleReqPayload:
 		v.MaxDCycle = u8(15)
+		if valid && r.Intn(8) == 0 {
+			v.MaxDCycle = 255 // LoRaWAN 1.0 / 1.0.1 whole-octet value "device off"
+		}
 	case *lorawan.RXParamSetupReqPayload:
 		v.Frequency = freq()
 		v.DLSettings.OptNeg, v.DLSettings.RX2DataRate, v.DLSettings.RX1DROffset = r.Bool(), u8(15), u8(7)
@@ -380,7 +383,7 @@ func Random(r *cq.RNG, i int, valid bool) lorawan.MACCommandPayload {
 	case *lorawan.ForceRejoinReqPayload:
 		v.Period, v.MaxRetries, v.DR = u8(7), u8(7), u8(15)
 		if valid {
-			v.RejoinType = uint8(r.Intn(2) * 2)
+			v.RejoinType = uint8(r.Intn(3)) // LoRaWAN 1.1 5.13: 0 and 1 = Rejoin-request type 0, 2 = type 2; 3..7 RFU
 		} else {
 			v.RejoinType = []uint8{0, 1, 2, 3, 7, 8, 255}[r.Intn(7)]
 		}
